@@ -464,3 +464,37 @@ func loopUsers(p *core.Program, fn *ssa.Function) []string {
 	sort.Strings(out)
 	return out
 }
+
+// wholeSliceCompares lists the calls in fn that compare two coordinate slices as wholes, length included
+// (slices.Equal/Compare/EqualFunc, reflect.DeepEqual, bytes.Equal): planar code handed a coordinate with extra
+// ordinates then decides differently than on the two ordinates it is defined on.
+func wholeSliceCompares(fn *ssa.Function) []ssa.CallInstruction {
+	var out []ssa.CallInstruction
+	for _, c := range eng.Calls(fn) {
+		o := eng.CalleeObj(c)
+		if o == nil || o.Pkg() == nil {
+			continue
+		}
+		hit := false
+		switch o.Pkg().Path() {
+		case "slices":
+			hit = o.Name() == "Equal" || o.Name() == "Compare" || o.Name() == "EqualFunc" || o.Name() == "CompareFunc"
+		case "reflect":
+			hit = o.Name() == "DeepEqual"
+		}
+		if !hit {
+			continue
+		}
+		for _, a := range c.Common().Args {
+			t := a.Type()
+			if mi, ok := a.(*ssa.MakeInterface); ok {
+				t = mi.X.Type()
+			}
+			if isFloatSlice(t) || isCoordType(t) {
+				out = append(out, c)
+				break
+			}
+		}
+	}
+	return out
+}
